@@ -135,7 +135,7 @@ theorem updateFee_exact (pool : Pool) (prev : Int) (row : Row) (p : Pos) (hlu : 
   | part n d =>
     rw [hcase] at hb
     simp only [weightOf] at hb ⊢
-    have : ¬ (NumCtx.exact.div (n : Rat) (d : Rat) > 1) := by
+    have : ¬ (NumCtx.exact.div (n : Rat) (d : Rat) > Gen.uniWeightAlarm) := by
       rw [NumCtx.exact_div]; exact not_lt.mpr hb.2
     rw [if_neg this, NumCtx.exact_div]
     exact calcAmounts_exact pool row p _ hc
